@@ -175,6 +175,16 @@ CHECKS = {
         "note": "Real perturbations >= 1e-9 absolute (|v| <= 1e3) or >= 1e-6 relative; snapshot differences below "
                 "5e-10 create no obligation.",
     },
+    "C07": {
+        "technique": "property-based / model-based testing: generated scenarios and add/assign/remove histories; oracle "
+                     "= brute-force geometric truth per obstacle and time step, registries compared as the whole "
+                     "inverse relation of the recorded assignment",
+        "text": "Thousands of scenarios per quick run (static / dynamic with trajectory or none; rectangle, circle, "
+                "polygon; centre-in / shape-touching-only / outside) through assign_obstacles_to_lanelets and through "
+                "XML / protobuf open(lanelet_assignment=True), plus histories with removals and re-adds. Circular "
+                "obstacles are attributed to the recorded half-radius finding. Exploration only.",
+        "note": "Band as in C06; set-based predictions and use_center_only are outside the domain.",
+    },
 }
 
 NOT_APPLICABLE = [{"property_id": p, "reason": "check not built yet (work in progress; will be claimed once its "
